@@ -374,6 +374,32 @@ func (r *RootAssertionNode) AddProduction(producer *annotation.ProduceTrigger, d
 	detachFromParent(currNode, whichChild)
 }
 
+// AddCheckedProduction takes the knowledge that producer.expr was found, by a check (e.g., `x != nil`), to have a value
+// produced by the trigger producer.annotation, and incorporates it into the assertion tree rootNode. Unlike an
+// assignment (see AddProduction), a check does not change the value of producer.expr, so only the assertions on the
+// expression itself are discharged: the assertions on paths accessible from it (e.g., on `x.f` for a check of `x`)
+// are kept, to be matched with whatever produces their values before the check (an assignment to `x.f`, an enclosing
+// check `x.f != nil`, ...).
+func (r *RootAssertionNode) AddCheckedProduction(producer *annotation.ProduceTrigger) {
+	path, _ := r.ParseExprAsProducer(producer.Expr, false)
+	currNode, whichChild := r.lookupPath(path)
+	if currNode == nil {
+		return // we don't care if this expression has a value produced because it's not tracked
+	}
+
+	for _, consumer := range currNode.ConsumeTriggers() {
+		r.AddNewTriggers(annotation.FullTrigger{
+			Producer: producer,
+			Consumer: consumer,
+		})
+	}
+	currNode.SetConsumeTriggers(nil)
+
+	if len(currNode.Children()) == 0 {
+		detachFromParent(currNode, whichChild)
+	}
+}
+
 // triggerProductions takes a node (assumed to be attached to its parent) and matches any of its
 // consumeTriggers with the given produceTrigger, as well as matching any more deeply found consumeTriggers
 // with the default non-tracked produceTriggers of their consuming expressions. Direct children of the
